@@ -13,7 +13,7 @@ between steps when more than one rank runs, so steps are totally ordered.
 Events carry only what was observed: arguments used, return code (symbolic), outputs,
 and the observations requested by the step ("obs": [...]).
 """
-import sys, os, json, re, ctypes, struct, hashlib, threading, time, random, shutil
+import sys, os, json, re, ctypes, struct, hashlib, threading, time, random, shutil, unicodedata
 from ctypes import (c_int, c_longlong, c_void_p, c_char_p, c_byte, c_ubyte, c_short, c_ushort,
                     c_uint, c_long, c_float, c_double, c_ulonglong, c_char, byref, addressof,
                     POINTER, cast, sizeof, memmove, string_at)
@@ -1074,6 +1074,11 @@ class Driver:
         hb[4:4 + n] = b"\0" * n
         return hashlib.sha256(bytes(hb)).hexdigest()[:16]
 
+    def obs_layout(self, a):
+        e, o = self.op_inq_layout(a)
+        o["rc"] = self.L.errname(e)
+        return o
+
     def obs_filesize(self, a):
         if self.rank != 0:
             return None
@@ -1119,7 +1124,7 @@ class Driver:
             i1, i2 = c_int(-9), c_int(-9)
             e1 = nc.ncmpi_inq_dimid(ncid, s.encode(), byref(i1))
             e2 = nc.ncmpi_inq_varid(ncid, s.encode(), byref(i2))
-            ent = {"name": s, "dim": i1.value if e1 == 0 else L.errname(e1),
+            ent = {"name": s, "norm": unicodedata.normalize("NFC", s), "dim": i1.value if e1 == 0 else L.errname(e1),
                    "var": i2.value if e2 == 0 else L.errname(e2), "att": []}
             for v in range(-1, nv.value):
                 i3 = c_int(-9)
